@@ -14,7 +14,7 @@ from ..poly import Poly
 
 ID = "C04"
 LEVEL = "exploration"
-BUDGET = {"quick": 220, "thorough": 3300}
+BUDGET = {"quick": 220, "thorough": 6000}
 ASSUMPTIONS = [
     "exact iteration with Fractions is the oracle; sympy subs/expand evaluates Polar's closed form at integer n",
     "numeric-root modes: a deviation must come with is_exact == False and stay below 1e-5 relative for n <= dim + 6 "
@@ -64,7 +64,7 @@ def _mats(tier):
             if canon in seen:
                 continue
             seen.add(canon)
-            out.append(m)
+            out.append(("light", m))
         for pos in range(4):
             for e in itertools.product(["-1", "0", "1", "2"], repeat=3):
                 ent = list(e)
@@ -73,15 +73,19 @@ def _mats(tier):
     # de-duplicate
     uniq, seen = [], set()
     for m in out:
+        light = isinstance(m, tuple)
+        if light:
+            m = m[1]
         k = tuple(tuple(r) for r in m)
         if k not in seen:
             seen.add(k)
-            uniq.append(m)
+            uniq.append((m, light))
     return uniq
 
 
 def cases(tier, seed):
-    return [{"input": {"matrix": m}} for m in _mats(tier)]
+    # "light": the large 3x3 class is run with one (generic) initial vector only
+    return [{"input": dict({"matrix": m}, **({"light": True} if light else {}))} for m, light in _mats(tier)]
 
 
 def iterate(A, v, c, steps):
@@ -124,6 +128,8 @@ def run_case(case):
     res = {"status": "ok", "stats": stats, "violations": []}
     steps = dim + 6
     inits = [["1"] + ["0"] * (dim - 1), [str(i + 1) for i in range(dim)]]
+    if case["input"].get("light"):
+        inits = inits[1:]
     inhoms = [["0"] * dim, ["0"] * (dim - 1) + ["5"]]
     parametric = any("p" in x for row in Atext for x in row)
     nontrivial = False
